@@ -380,9 +380,13 @@ fn replay_one(beh: &[Value], n: usize, w: Duration, emb: &Emb, variant: usize) -
                     return Ok(checks);
                 }
                 let r = rt.as_mut().unwrap();
+                // "dispatches exactly n events (or all that remain)": when the contract's step exhausts the event set, any
+                // larger n is the same request - including the largest one
+                let exhausts = beh[pos + 1..].iter().find(|x| x["op"] == "end_step").map(|x| x["remaining"] == 0).unwrap_or(false);
                 let res = catch_unwind(AssertUnwindSafe(|| match op {
                     "step_n" => {
-                        r.dispatch_n_events(e["n"].as_u64().unwrap() as usize);
+                        let n = if exhausts && variant % 4 == 1 { usize::MAX } else if exhausts && variant % 4 == 3 { usize::MAX / 2 + 7 } else { e["n"].as_u64().unwrap() as usize };
+                        r.dispatch_n_events(n);
                     }
                     "step_until" => {
                         r.dispatch_events_until(st(emb.map(e["t"].as_u64().unwrap())));
